@@ -22,6 +22,7 @@ RULES = {
     "R-04.5": "Parser reads are bounded: get_bytes/seek raise FormError out of bounds and every get_uintN/get_struct unpacks exactly calcsize(format) octets",
     "R-04.6": "every `while` loop on a parse path consumes input (or strictly decreases a measure) on every trip",
     "R-04.8": "values returned by the parsers can be rendered: the constructor validators that back every encoder-side `assert l < N` / struct width bound the value they return (shared with C05 R-05.5; the per-encoder interval check is C05 R-05.1)",
+    "R-04.12": "what is parsed can be printed: in the to_text of an EDNS option, `.decode()` of raw option octets runs only under an `all(<printable test> for c in <those octets>)` guard (hexlify output excepted); and dns.grange.from_text returns a step >= 1 on every path (the zone reader hands it to range(), outside its SyntaxError wrapper)",
     "R-04.11": "a wire reader decodes text strictly: a lenient error handler (surrogateescape / ignore / replace) on `.decode()` in a from_wire_parser accepts octets that the class's strict `.encode()` cannot write back, so hashing, comparing or re-rendering the parsed value raises UnicodeEncodeError outside every wrapper",
     "R-04.10": "what the wire parser accepts can be printed: integer fields printed through an enum's to_text were bounded to that enum's range by the constructor (C05 R-05.11 adopted) - otherwise from_wire succeeds and to_text of the result raises a bare ValueError",
     "R-04.9": "a failed record leaves the parser usable: Parser.restrict_to restores the previous end in a `finally` (C02 R-02.2 restrict-shape adopted), otherwise every record after a damaged one is reported as malformed under continue_on_error",
@@ -537,6 +538,40 @@ def run(model, rep, tier):
     check_validators(model, rep, "R-04.8")
     rep.assume("AttributeError/TypeError from None-dereference or wrong attribute are outside the implicit-raise table (pyright on the pinned tree reports none in the parse zone)")
     rep.assume("third-party idna / hashlib / hmac behave as documented; user callbacks (callable keyring, GSSAPI context) are outside the analysed program")
+    n_ot = 0
+    for ft_ in sorted(model.all_functions(), key=lambda g: g.qualname):
+        if ft_.module.name != "dns.edns" or ft_.name != "to_text":
+            continue
+        cft = CFG(ft_.node, implicit_exc=False)
+        for (nd, c) in calls_with_nodes(cft):
+            if not (isinstance(c.func, ast.Attribute) and c.func.attr == "decode" and isinstance(c.func.value, ast.Attribute) and src(c.func.value.value) == "self"):
+                continue
+            n_ot += 1
+            subj = src(c.func.value)
+            gates = set()
+            for t in cft.nodes:
+                if t.kind == "test" and isinstance(t.ast, ast.If):
+                    tt = t.ast.test
+                    if isinstance(tt, ast.Call) and src(tt.func) == "all" and tt.args and isinstance(tt.args[0], ast.GeneratorExp) and src(tt.args[0].generators[0].iter) == subj:
+                        gates.add((t.id, "t"))
+            rep.check(bool(gates) and cft.edge_dominated(nd.id, gates), "R-04.12", ft_.qualname, where(ft_, c), f"`{src(c)}` only when every octet passed the printable test",
+                      f"`{src(c)}` decodes raw option octets without an `all(... for c in {subj})` guard on every path (e.g. `any` instead of `all`): an option parsed from the wire makes str(option) / "
+                      "Message.to_text() raise UnicodeDecodeError", stmt=f"guarded-decode {subj}")
+    rep.floor("R-04.12", n_ot, 1)
+    gr = model.func("dns.grange.from_text")
+    cgr = CFG(gr.node, implicit_exc=False)
+    rets_g = [n for n in cgr.nodes if isinstance(n.ast, ast.Return) and n.ast.value is not None]
+    ok_edges = set()
+    for t in cgr.nodes:
+        if isinstance(t.ast, ast.Assert):
+            if any(a[0] == "step" and ((a[1] == ">=" and a[2] == "1") or (a[1] == ">" and a[2] == "0")) for a in atoms(normalise_compare(t.ast.test))):
+                ok_edges.add(t.id)
+        elif t.kind == "test" and isinstance(t.ast, ast.If) and t.ast.body and isinstance(t.ast.body[-1], ast.Raise) and normalise_compare(t.ast.test)[0] in ("atom", "or"):
+            if any(a[0] == "step" and ((a[1] == "<" and a[2] == "1") or (a[1] == "<=" and a[2] == "0")) for a in atoms(normalise_compare(t.ast.test))):
+                ok_edges.add(t.id)
+    rep.check(bool(rets_g) and bool(ok_edges) and all(cgr.dominated_by_set(r.id, ok_edges) for r in rets_g), "R-04.12", gr.qualname, where(gr, rets_g[0].ast if rets_g else gr.node),
+              "every returned step passed `step >= 1`",
+              "dns.grange.from_text can return a step below 1: `$GENERATE 1-5/0 ...` reaches range(start, stop + 1, 0) in the zone reader, outside its SyntaxError wrapper - a bare ValueError without file:line", stmt="grange-step")
     n_dec = 0
     for fd in sorted(model.all_functions(), key=lambda g: g.qualname):
         if fd.name not in ("from_wire_parser", "from_wire") or not (fd.module.name.startswith("dns.rdtypes") or fd.module.name in ("dns.edns", "dns.rdata")):
@@ -560,6 +595,10 @@ def run(model, rep, tier):
 
 
 WITNESSES = [
+    {"id": "c04-nsid-to-text-any-printable", "rule": "R-04.12", "file": "dns/edns.py", "expect": "fires",
+     "old": "        if all(c >= 0x20 and c <= 0x7E for c in self.nsid):", "new": "        if any(c >= 0x20 and c <= 0x7E for c in self.nsid):"},
+    {"id": "c04-grange-step-zero", "rule": "R-04.12", "file": "dns/grange.py", "expect": "fires",
+     "old": "    assert step >= 1\n    assert start >= 0\n", "new": "    if start < 0 or step < 0:\n        raise dns.exception.SyntaxError(\"bad range\")\n"},
     {"id": "c04-rdata-from-wire-parses-a-slice", "rule": "R-04.5", "file": "dns/rdata.py", "expect": "fires",
      "old": "    parser = dns.wire.Parser(wire, current)\n    with parser.restrict_to(rdlen):", "new": "    parser = dns.wire.Parser(wire[current : current + rdlen])\n    with parser.restrict_to(rdlen):"},
     {"id": "c04-parser-init-stores-offset", "rule": "R-04.5", "file": "dns/wirebase.py", "expect": "fires",
